@@ -129,7 +129,7 @@ theorem bin_bytesDec_agree (b : Bytes) (t : UInt8) (n : Nat) (h : refLen 64 t b 
 
 /-! ## BufferReader.Skip (stream reader)
 
-  `RdOK r` = C04's reader invariant ∧ sizes ≤ 2^60; `r.Live` = C04's live-source predicate (stream
+  `RdOK r` = C04's reader invariant ∧ sizes ≤ 2^40; `r.Live` = C04's live-source predicate (stream
   exhausted, or no error seen and the remaining script `Steady`); `remaining r` = what the reader
   still owes (buffered-unread ++ unread source).  See Props/C02.lean for the wording. -/
 
